@@ -548,6 +548,12 @@ class Subprocess(object):
         """
         self.drain()
 
+        # the dispatchers are discarded below, so no later read can complete a
+        # capture token: log whatever output is still held back for matching
+        for dispatcher in self.dispatchers.values():
+            if hasattr(dispatcher, 'record_output'):
+                dispatcher.record_output(eof=True)
+
         es, msg = decode_wait_status(sts)
 
         now = time.time()
